@@ -138,6 +138,29 @@ struct FindPrototypeByCallable : public FindPrototypeByCallableFromIndex <0, Pro
 {
 };
 
+// Remove the first N prototypes from a prototype list.
+// FindPrototypeByCallableFromIndex<N, ...> expects the list to start at the prototype of index N.
+template <int N, typename PrototypeList_>
+struct DropPrototypes;
+
+template <int N, typename First, typename ...Others>
+struct DropPrototypes <N, HeterTuple<First, Others...> >
+{
+	using Type = typename DropPrototypes<N - 1, HeterTuple<Others...> >::Type;
+};
+
+template <typename First, typename ...Others>
+struct DropPrototypes <0, HeterTuple<First, Others...> >
+{
+	using Type = HeterTuple<First, Others...>;
+};
+
+template <int N>
+struct DropPrototypes <N, HeterTuple<> >
+{
+	using Type = HeterTuple<>;
+};
+
 template <int N, typename PrototypeList_, typename ...InArgs>
 struct FindPrototypeByArgsFromIndex;
 
